@@ -129,3 +129,21 @@ package throttle
 //@   callee AsString() (s)
 //@     pure
 //@     set alleq := alleq && s == r.values[rangeindex]
+
+// The bucket window is driven by the wall clock only (C16: "events timed outside
+// the retained window count against the newest bucket"): what rebuild gets as the
+// current time is exactly what nowFn returned - an event's own timestamp never
+// moves the window.
+
+//@ func (*inMemoryLimiter).rebuildBuckets
+//@   ghost gw int = 0
+//@   ghost ge int = 0
+//@   ghost nnow int = 0
+//@   callee nowFn() (r)
+//@     pure
+//@     set gw := r.wall
+//@     set ge := r.ext
+//@     set nnow := nnow + 1
+//@   callee rebuild(cur, t) (r)
+//@     requires nnow == 1 && cur.wall == gw && cur.ext == ge
+//@     requires t.wall == ts.wall && t.ext == ts.ext
